@@ -222,3 +222,45 @@ Definition link (m : measure) (many : bool) : contract :=
 Definition all_measures : list measure :=
   [MFidelity; MTraceDistance; MMutinf; MPTNorm; MLogneg; MNegativity;
    MConcurrence; MDiscord; MMeasure; MCounts; MDecomp; MPartialTranspose].
+
+(* ---- projector / measure: grouping eigenvalues within a tolerance --------------- *)
+(* Eigenvalues, the outcome and the tolerance live on one integer grid (floats
+   k / 2^s, exact); for a tolerance off the grid the harness passes its ceiling,
+   which decides `x < tol` identically for every integer x.
+   projector():  which = np.argwhere(abs(el - eigenvalue) < tol)
+   measure():    P = projector((el, ev), eigenvalue=eigenvalue, tol=tol)
+                 total_prob = np.sum(pj[abs(el - eigenvalue) < tol])        *)
+Definition near (lam tol e : Z) : bool := (Z.abs (e - lam) <? tol)%Z.
+
+Fixpoint group_from (i : nat) (el : list Z) (lam tol : Z) : list nat :=
+  match el with
+  | [] => []
+  | e :: t => if near lam tol e then i :: group_from (S i) t lam tol else group_from (S i) t lam tol
+  end.
+(* indices of the eigenvectors summed into the projector *)
+Definition group (el : list Z) (lam tol : Z) : list nat := group_from 0 el lam tol.
+
+(* boolean-mask sum of the probabilities *)
+Fixpoint group_sum (el pj : list Z) (lam tol : Z) : Z :=
+  match el, pj with
+  | e :: t, p :: q => ((if near lam tol e then p else 0) + group_sum t q lam tol)%Z
+  | _, _ => 0%Z
+  end.
+
+(* the probability mass of the levels with tol1 <= |e - lam| < tol2 *)
+Fixpoint annulus_sum (el pj : list Z) (lam tol1 tol2 : Z) : Z :=
+  match el, pj with
+  | e :: t, p :: q => ((if near lam tol2 e && negb (near lam tol1 e) then p else 0) + annulus_sum t q lam tol1 tol2)%Z
+  | _, _ => 0%Z
+  end.
+
+(* sum of pj over a list of indices *)
+Definition sum_at (pj : list Z) (idx : list nat) : Z := fold_right (fun j acc => (nth j pj 0 + acc)%Z) 0%Z idx.
+
+(* measure(p, (el, ev), eigenvalue, tol): (outcome, eigenvectors projected on, normaliser);
+   the caller's tol reaches BOTH the projector and the normaliser *)
+Definition measure_model (el pj : list Z) (lam tol : Z) : Z * list nat * Z :=
+  (lam, group el lam tol, group_sum el pj lam tol).
+(* eigenvalue=None: the sampled level j gives the outcome el[j], grouping is around it *)
+Definition measure_sampled (el pj : list Z) (j : nat) (tol : Z) : Z * list nat * Z :=
+  measure_model el pj (nth j el 0%Z) tol.
